@@ -1016,6 +1016,118 @@ def case_close(case):
 
 
 # ------------------------------------------------------------------------------------------
+# model names: "any supported model" can be named in every way hyperbolic.Model documents -- the enum member
+# (aliases included: Model.KLEINIAN / Model.AFFINE are the Klein model, Model.HALFPLANE the half-space model) or a
+# string matching any alias NAME, case-insensitively (the module documentation itself reads coords(model="halfplane")).
+# Every way of naming a model is that model: same coordinates read, same point built.
+# ------------------------------------------------------------------------------------------
+MODEL_ALIASES = {"poincare": ["POINCARE"], "klein": ["KLEIN", "KLEINIAN", "AFFINE"], "halfspace": ["HALFSPACE", "HALFPLANE"],
+                 "hyperboloid": ["HYPERBOLOID"], "projective": ["PROJECTIVE"]}
+NAME_FORMS = ["enum", "upper", "lower", "capitalized", "mixed"]
+
+
+def model_name(alias, form):
+    """The object handed to the library as `model` (resolved inside the case function: cases stay JSON-able)."""
+    if form == "enum":
+        from geometry_tools import hyperbolic
+        return getattr(hyperbolic.Model, alias)
+    return {"upper": alias, "lower": alias.lower(), "capitalized": alias.capitalize(),
+            "mixed": alias.capitalize().swapcase()}[form]
+
+
+def case_model_names(case):
+    from geometry_tools import hyperbolic
+    n, canon, alias, form, ideal = case["n"], case["canon"], case["alias"], case["form"], case["ideal"]
+    pts = [np.asarray(k, dtype=float) for k in case["pts"]]
+    cls = "ideal" if ideal else "interior"
+    v, t, seen = [], 0, set()
+    worst = 0.0
+
+    def add(key, msg):
+        if key not in seen:
+            seen.add(key)
+            v.append({"key": key, "msg": msg})
+
+    name = model_name(alias, form)
+    label = "Model.%s" % alias if form == "enum" else repr(name)
+    if form == "enum" and name is not getattr(hyperbolic.Model, MODEL_ALIASES[canon][0]):
+        raise AssertionError("HARNESS: Model.%s is not the %s model" % (alias, canon))
+    groups = [[k] for k in pts] + [pts]                 # every point alone, and all of them as one composite
+    for grp in groups:
+        kl = np.array(grp) if len(grp) > 1 else grp[0]
+        rep = -0.3 if canon == "projective" else 1.0
+        src = oracle_coords(canon, kl, rep)
+        who = "H^%d %s point(s) %r, model named %s (the %s model)" % (n, cls, np.asarray(kl).round(4).tolist(), label, canon)
+        # (a) build from the canonical-model coordinates under this name, through every constructor; all charts
+        for via in CALLER_VIAS:
+            arr = np.array(src, dtype=float)
+            if via == "get_point":
+                P = hyperbolic.get_point(arr, model=name)
+            elif via == "coords-set":
+                start = np.zeros(np.shape(kl)[:-1] + (n + 1,))
+                start[..., 0] = 1.0
+                start[..., 1] = 0.25
+                P = hyperbolic.Point(start)
+                P.coords(name, arr)
+            else:
+                P = hyperbolic.Point(arr, model=name)
+            t += 1
+            before = len(v)
+            tt, w = check_all_charts(P, kl, ideal, "%s, built via %s" % (who, via), v)
+            for x in v[before:]:
+                x["key"] = "model-name/build/%s/%s" % (canon, form)
+            t += tt
+            worst = max(worst, w)
+        # (b) read the coordinates under this name from a point built canonically: the canonical chart, and what
+        #     the canonical name gives on an equal fresh point
+        if not (ideal and canon == "hyperboloid"):
+            m0, r0 = ("projective", 2.5) if canon != "projective" else ("klein", 1.0)
+            P = build(oracle_coords(m0, kl, r0), m0)
+            P0 = build(oracle_coords(m0, kl, r0), m0)
+            got = np.asarray(P.coords(name))
+            ref = np.asarray(P0.coords(canon))
+            t += 4
+            err, tol, bad = chart_error(canon, got, kl, ideal)
+            if bad is not None or not err <= tol:
+                add("model-name/read/%s/%s" % (canon, form), "%s: coords(%s) %s" % (
+                    who, label, bad or "differs from the %s chart by %.3g (tol %.1g)" % (canon, err, tol)))
+            elif got.shape != ref.shape or got.dtype != ref.dtype or not np.all(np.abs(got - ref) <= 1e-12 * (1.0 + np.abs(ref))):
+                add("model-name/read-vs-canonical/%s/%s" % (canon, form), "%s: coords(%s) = %r but coords(%r) = %r on an equal point" % (
+                    who, label, got.tolist(), canon, ref.tolist()))
+            else:
+                worst = max(worst, err / tol)
+                # (c) round trip under the name: read, build back under the name, all charts
+                back = hyperbolic.Point(np.array(got, dtype=float), model=name)
+                t += 1
+                before = len(v)
+                tt, w = check_all_charts(back, kl, ideal, "%s, read with coords(%s) and built back" % (who, label), v)
+                for x in v[before:]:
+                    x["key"] = "model-name/round-trip/%s/%s" % (canon, form)
+                t += tt
+                worst = max(worst, w)
+    uniq, ks = [], set()
+    for x in v:
+        if x["key"] not in ks:
+            ks.add(x["key"])
+            uniq.append(x)
+    return {"v": uniq, "t": t, "o": "%d|%s|%s|%s|%s|%d|%d" % (n, cls, canon, alias, form, len(uniq), int(np.ceil(np.log10(worst + 1e-12)))),
+            "nt": form != "lower" or alias.lower() != canon}
+
+
+def model_name_cases(dims, lat):
+    for n in dims:
+        P, I = lat[n]
+        for ideal in (False, True):
+            pts = (I if ideal else P)[:4]
+            for canon, aliases in MODEL_ALIASES.items():
+                if ideal and canon == "hyperboloid":
+                    continue
+                for alias in aliases:
+                    for form in NAME_FORMS:
+                        yield {"n": n, "canon": canon, "alias": alias, "form": form, "ideal": ideal, "pts": pts}
+
+
+# ------------------------------------------------------------------------------------------
 def run(ctx):
     q = ctx.quick
     seed = ctx.seed
@@ -1121,6 +1233,16 @@ def run(ctx):
                                     "first and of second points (every constructor) built from the same kept array = charts of the array's "
                                     "numbers; distance between them 0; distance to a point from another kept array = Klein metric = the "
                                     "model's closed-form metric on the two kept arrays"})
+    cases = list(model_name_cases(dims, lat))
+    ctx.product("model-names", "checks.c01:case_model_names", cases, chunk=16,
+                domains={"dimensions": dims, "model names": MODEL_ALIASES, "forms of each name": NAME_FORMS,
+                         "points": "the first 4 interior lattice points / ideal directions, each alone and all as one composite",
+                         "constructors": CALLER_VIAS,
+                         "demands": "a point built from the model's coordinates under this name (Point, get_point, coords setter) has the "
+                                    "oracle charts; coords(name) of a canonically built point = the model's chart = coords(canonical name) "
+                                    "on an equal point; reading with coords(name) and building back with model=name gives the same point"})
+    ctx.assume("model names: the members of hyperbolic.Model (aliases KLEINIAN, AFFINE -> Klein, HALFPLANE -> half-space) and strings equal to a member "
+               "NAME in upper, lower, capitalised or mixed case (Model: 'compared to strings ... True if the strings match any alias name (case insensitive)')")
     ctx.assume("caller arrays: float64 (C-contiguous, strided view, Fortran order, read-only), float32 (interior points of Klein radius <= 0.9 only; coordinates to "
                "1e-4 (1+|c|)^2, distances to the arccosh conditioning of a float32 Minkowski product + 1e-4 (1+d)), and integer-valued int64/int32 arrays in the Poincare and half-space models only (the "
                "projective/hyperboloid/Klein setters keep the dtype they are given; integer arrays there are out of domain)")
